@@ -1,12 +1,12 @@
-CONSTANTS B = 4  Bufs = {3, 99}  Paths = {"A", "B"}  WithTrunc = TRUE  WithCorrupt = TRUE  FixSeek = TRUE  FixData = TRUE  FixHdr = FALSE
+CONSTANTS B = 4  Bufs = {3, 99}  Paths = {"A", "B"}  WithTrunc = TRUE  WithCorrupt = TRUE  FixSeek = TRUE  FixData = TRUE  FixHdr = TRUE
 CONSTANT Shapes <- ShapesThorough
 SPECIFICATION Spec
 VIEW View
 INVARIANT TypeOK
 INVARIANT TellIsTrue
+INVARIANT ExactOrFail
 INVARIANT OwnData
 INVARIANT NoHang
 INVARIANT IntactExact
 INVARIANT DefectsExplained
-INVARIANT OnlyHeaderSwallowingLeft
 PROPERTY Terminates
